@@ -76,6 +76,7 @@ func runOne(t *testing.T, c *Case, work, sched *choice.Source, out *wproto.Out, 
 		}
 	}
 	out.SampleKind(c.Algo, map[string]any{"case": id, "what": st.Desc, "faces": st.Faces, "sched_steps": st.Steps, "preemptions": st.Preempt, "tasks": st.Tasks}, 2, 12)
+	out.Remember(c)
 	out.Tick(64)
 }
 
